@@ -144,7 +144,8 @@ def regress_scenarios(full):
     add([R("h1", 0, "h_slow"), dict(T(0, "t.slow"), nowait=True), dict(U("h1", 0), nowait=True), RS("kill", quiet=False),
          dict(a="settle"), T(0, "t.p"), T(1, "t.p")], cfg="known-unreg-lost")
     # C17 known (found by TLC on XsGenerators): a .spawn.error for an older spawn hides the accepted one
-    add([BURST([SP("g1", 0, "g_nocontent"), SP("g1", 0, "g_stream1")], threads=1), RS("kill"), dict(a="sleep", ms=300)], cfg="known-gen-shadow")
+    add([BURST([SP("g1", 0, "g_nocontent"), SP("g1", 0, "g_nocontent"), SP("g1", 0, "g_nocontent"), SP("g1", 0, "g_stream1")], threads=1),
+         RS("kill"), dict(a="sleep", ms=300)], cfg="known-gen-shadow")
     # C18 duplex; known: a .send in another context feeds the instance
     add([SP("g1", 1, "g_duplex"), SD("g1", 1, "s1\n"), SD("g1", 1, "s2\n"), RS("kill"), SD("g1", 1, "s3\n")])
     add([SP("g1", 1, "g_duplex"), SD("g1", 1, "s1\n"), SD("g1", 0, "s2\n"), SD("g1", 1, "s3\n")], cfg="known-duplex-ctx")
